@@ -284,33 +284,64 @@ def _positive(ctx, keys, sections):
 # ---------------------------------------------------------------------------
 # Material objects
 
+def _is_mat(e, p):
+    """Expression denotes parameter p (a Material or a dict/list of
+    Materials) or one of its elements."""
+    if src(e) == p:
+        return True
+    if isinstance(e, ast.Subscript):
+        return _is_mat(e.value, p)
+    return False
+
+
 def _param_mutated(repo, res, fi, p, seen=None):
-    """Does function fi (transitively) call .update()/.reset() on parameter
-    p, assign its attributes, or store it into an attribute whose class
-    updates it later?  -> reason string or None"""
-    seen = seen or set()
+    """Does function fi (transitively) call .update() on parameter p (or on
+    an element p[...] when p is a container of Materials), assign its
+    attributes, or keep it in an attribute whose class updates it later?
+    -> reason string or None"""
+    seen = seen if seen is not None else set()
     if (fi.full, p) in seen:
         return None
     seen.add((fi.full, p))
+    # local aliases of the parameter / its elements
+    names = {p}
+    for _ in range(2):
+        for st in walk_no_nested(fi.node):
+            if isinstance(st, ast.Assign) and len(st.targets) == 1 and \
+                    isinstance(st.targets[0], ast.Name) and any(
+                        _is_mat(st.value, q) for q in names):
+                names.add(st.targets[0].id)
+
+    def is_m(e):
+        return any(_is_mat(e, q) for q in names)
     for c in walk_no_nested(fi.node):
         if isinstance(c, ast.Call) and isinstance(c.func, ast.Attribute) and \
-                src(c.func.value) == p and c.func.attr in ('update',):
-            return '%s calls %s.update()' % (fi.qual, p)
+                is_m(c.func.value) and c.func.attr in ('update',):
+            return '%s calls %s.update()' % (fi.qual, src(c.func.value))
     for t, st in U.stores(fi.node):
-        if isinstance(t, ast.Attribute) and src(t.value) == p:
-            return '%s assigns %s.%s' % (fi.qual, p, t.attr)
-        # self.f = p  -> later self.f.update in the class
-        if isinstance(t, ast.Attribute) and src(t.value) == 'self' and \
-                isinstance(st, ast.Assign) and src(st.value) == p and \
-                fi.cls is not None:
-            for m in fi.cls.methods.values():
-                for c in walk_no_nested(m.node):
-                    if isinstance(c, ast.Call) and isinstance(
-                            c.func, ast.Attribute) and c.func.attr == \
-                            'update' and src(c.func.value) == 'self.' + t.attr:
-                        return '%s keeps it as self.%s and %s calls ' \
-                               'self.%s.update()' % (fi.qual, t.attr, m.qual,
-                                                     t.attr)
+        if isinstance(t, ast.Attribute) and is_m(t.value):
+            return '%s assigns %s.%s' % (fi.qual, src(t.value), t.attr)
+        # <obj>.f = p[...]  -> later <obj>.f.update in that object's class
+        if isinstance(t, ast.Attribute) and isinstance(st, ast.Assign) and \
+                is_m(st.value):
+            owner = src(t.value)
+            classes = []
+            if owner == 'self' and fi.cls is not None:
+                classes = [fi.cls]
+            else:
+                # self.region[0].coolant = mat_dict['coolant'] etc.: any
+                # package class with a method updating self.<attr>
+                classes = list(repo.all_classes())
+            for ci in classes:
+                for m in ci.methods.values():
+                    for c in walk_no_nested(m.node):
+                        if isinstance(c, ast.Call) and isinstance(
+                                c.func, ast.Attribute) and c.func.attr == \
+                                'update' and src(c.func.value) == \
+                                'self.' + t.attr:
+                            return '%s keeps it as %s.%s and %s calls ' \
+                                   'self.%s.update()' % (
+                                       fi.qual, owner, t.attr, m.qual, t.attr)
     for c in walk_no_nested(fi.node):
         if not isinstance(c, ast.Call):
             continue
@@ -319,7 +350,7 @@ def _param_mutated(repo, res, fi, p, seen=None):
             continue
         for callee in cs:
             for q, a in bind_args(c, callee).items():
-                if src(a) == p:
+                if is_m(a):
                     if callee.full in SAVE_RESTORE_OK:
                         continue
                     r = _param_mutated(repo, res, callee, q, seen)
@@ -340,11 +371,40 @@ def r1_materials(ctx, res):
         for r in ('dassh_input.materials', 'inp.materials',
                   'dassh_inp.materials', 'inp_obj.materials'):
             mats.add(r)
+        # local containers that receive an un-cloned input material
+        tainted = {}
+        for t, st in U.stores(fi.node):
+            if isinstance(st, ast.Assign) and isinstance(t, ast.Subscript) \
+                    and isinstance(t.value, ast.Name) and isinstance(
+                        st.value, ast.Subscript) and \
+                    src(st.value.value) in mats:
+                tainted[t.value.id] = st
         for c in walk_no_nested(fi.node):
             if not isinstance(c, ast.Call):
                 continue
             cs, how = res.callees(fi, c)
             for a in list(c.args) + [k.value for k in c.keywords]:
+                if isinstance(a, ast.Name) and a.id in tainted and \
+                        how not in ('by-name', 'external', 'unresolved'):
+                    n += 1
+                    for callee in cs:
+                        b = bind_args(c, callee)
+                        q = [k for k, v in b.items() if v is a]
+                        if not q:
+                            continue
+                        why = _param_mutated(repo, res, callee, q[0])
+                        st0 = tainted[a.id]
+                        ctx.require(
+                            why is None, 'C16.R1', fi, st0,
+                            'puts the input\'s own Material object (%s, no '
+                            '.clone()) into %s, which is handed to %s; %s: '
+                            'the input material changes state while the '
+                            'model is built / swept' % (
+                                ' '.join(src(st0.value).split()), a.id,
+                                callee.qual, why),
+                            key='%s | %s -> %s' % (
+                                fi.full, ' '.join(src(st0).split()),
+                                callee.qual))
                 if isinstance(a, ast.Subscript) and src(a.value) in mats:
                     n += 1
                     if how in ('by-name', 'external', 'unresolved'):
